@@ -118,7 +118,68 @@ def gen(tier, rnd):
                     evs.append(event(i, m, ws[1], Dx)); i += 1
         seq = [rnd.choice(live + dead) for _ in range(10 if tier == 'quick' else 40)]
         for Dx in seq + seq[::-1]:
+            if um is not None and rnd.random() < 0.35:
+                # the user re-expresses one of the motor's constants IN PLACE (the quantity object the motor holds, reached through
+                # the public getter): the magnitudes have not changed, so neither has the characteristic
+                attrs = [('maximum_torque', 'Torque'), ('no_load_speed', 'AngularSpeed')] + \
+                        ([('no_load_electric_current', 'Current'), ('maximum_electric_current', 'Current')] if i0 is not None else [])
+                a, kind = rnd.choice(attrs)
+                getattr(m, a).to(rnd.choice(spectab.units_of(kind)), inplace=True)
             evs.append(event(i, m, rnd.choice(ws), Dx)); i += 1
+    return evs
+
+
+def anim_events(tier, rnd):
+    """dc_motor_characteristics_animation on simulated powertrains (duty cycle varied by a control where one was drawn): every
+    frame's line and marker read back from the figure, re-expressed in SI"""
+    import matplotlib
+    matplotlib.use('Agg')
+    import matplotlib.pyplot as plt
+    from gearpy.utils import dc_motor_characteristics_animation
+    from . import snapshot_drv
+    evs = []
+    for i in range(6 if tier == 'quick' else 24):
+        b = snapshot_drv.simulated(rnd, i)
+        pt = b['pt']
+        m = pt.elements[0]
+        has = m.electric_current_is_computable
+        for variant in range(2):
+            ts, tc = (True, has) if variant == 0 else ((False, True) if has else (True, False))
+            if variant == 1 and not has:
+                continue
+            uw, ut, ui = (rnd.choice(spectab.units_of(k)) for k in ('AngularSpeed', 'Torque', 'Current'))
+            pad = rnd.choice([0, 0.1, 0.25, 1])
+            plt.close('all')
+            an, err = outcome(lambda: dc_motor_characteristics_animation(motor=m, time=pt.time, torque_speed_curve=ts, torque_current_curve=tc, angular_speed_unit=uw,
+                                                                         torque_unit=ut, current_unit=ui, padding=pad, show=False))
+            e = {'id': f'an{i}_{variant}', 'm': motor_consts(m), 'pad': rstr(pad), 'ts': ts, 'tc': tc, 'ok': err is None, 'err': err or '', 'frames': []}
+            if err is None:
+                fig = an._fig
+                for j in range(len(pt.time)):
+                    if j > 0:
+                        an._func(j)                                   # the frame callback FuncAnimation was given (frames 1 .. n-1; frame 0 is the initial drawing)
+                    tv = m.time_variables
+                    fr = {'D': rstr(tv['pwm'][j]), 'w': rstr(si(tv['angular speed'][j], 'AngularSpeed')), 'T': rstr(si(tv['driving torque'][j], 'Torque')),
+                          'I': rstr(si(tv['electric current'][j], 'Current')) if has else 'null', 'ts': [], 'tc': []}
+                    axes = list(fig.axes)
+                    for key, on, ax, kind, ux in (('ts', ts, axes[0], 'AngularSpeed', uw), ('tc', tc, axes[-1], 'Current', ui)):
+                        if not on:
+                            continue
+                        ln = [l for l in ax.get_lines() if len(l.get_xdata()) == 2 and l.get_marker() in ('None', None, '') and l.get_linewidth() != 0.5]
+                        mk = [l for l in ax.get_lines() if l.get_marker() == 'o']
+                        if len(ln) != 1 or len(mk) != 1:
+                            e['ok'], e['err'] = False, 'figure-layout'
+                            continue
+                        X = lambda x, kind=kind, ux=ux: rstr(spectab.to_si(Fraction(float(x)), kind, ux))
+                        Y = lambda y: rstr(spectab.to_si(Fraction(float(y)), 'Torque', ut))
+                        xs, ys = ln[0].get_xdata(), ln[0].get_ydata()
+                        px, py = mk[0].get_xdata(), mk[0].get_ydata()
+                        px = px[0] if hasattr(px, '__len__') else px
+                        py = py[0] if hasattr(py, '__len__') else py
+                        fr[key] = [X(xs[0]), X(xs[1]), Y(ys[0]), Y(ys[1]), X(px), Y(py)]
+                    e['frames'].append(fr)
+            plt.close('all')
+            evs.append(e)
     return evs
 
 
@@ -148,6 +209,13 @@ def run_C08(tier, seed):
     for tid, fails in res.fails.items():
         if fails:
             v.violation({'clauses': fails, 'event': byid[tid]})
+    # growth beyond C08 (notes, never a verdict): the frames of dc_motor_characteristics_animation against the same Motor.tla
+    aev = anim_events(tier, random.Random(seed + 7))
+    ares = validate('Trace_Motor', aev, shards=1)
+    v.states += ares.states; v.transitions += ares.transitions
+    v.extra['animation_figures'] = len(aev)
+    v.extra['animation_frames'] = sum(len(e['frames']) for e in aev)
+    v.extra['animation_mismatches'] = [{'id': t, 'clauses': f} for t, f in ares.fails.items() if f]
     v.distinct = len({(str(e['m']), e['w'], e['D']) for e in evs})
     v.rule = ('motor constants (fixed set incl. i0 = 0, no current data; seeded random constants expressed in random units) x duty cycles '
               '{0, +-1, grid, the dead-zone boundary as decimal and as float quotient, their +-1,+-2 ulp neighbours, half / 1.5x boundary, random} x speeds '
